@@ -33,6 +33,8 @@ type MemDriver struct {
 
 	listenCB   func([]byte)
 	listenDone chan any
+	listenMu   sync.RWMutex // held (read) while a buffer is being delivered: like the real receive loop, the
+	// in-memory listener reports 'done' only when no callback is in progress
 }
 
 var ErrTimeout = errors.New("i/o timeout (scripted)")
@@ -133,6 +135,11 @@ func (d *MemDriver) Listen(signal chan any, done chan any, callback func([]byte)
 	d.mu.Unlock()
 	go func() {
 		<-signal
+		d.listenMu.Lock() // wait for a delivery in progress, as the real read loop does
+		d.mu.Lock()
+		d.listenCB = nil
+		d.mu.Unlock()
+		d.listenMu.Unlock()
 		close(done)
 	}()
 	return nil
@@ -140,6 +147,8 @@ func (d *MemDriver) Listen(signal chan any, done chan any, callback func([]byte)
 
 // Push delivers a buffer to the listener callback (as the real receive loop does, synchronously).
 func (d *MemDriver) Push(b []byte) bool {
+	d.listenMu.RLock()
+	defer d.listenMu.RUnlock()
 	d.mu.Lock()
 	cb := d.listenCB
 	d.mu.Unlock()
